@@ -22,7 +22,7 @@ SPARSE_OPS = None
 
 def strategy(tier):
     big = tier == 'thorough'
-    return genexpr.programs(maxnodes=30 if big else 12, maxdepth=7 if big else 5, maxloops=3 if big else 2, maxdim=3, family_bias=0.5)
+    return genexpr.programs(maxnodes=30 if big else 12, maxdepth=7 if big else 5, maxloops=3 if big else 2, maxdim=3, family_bias=0.5, root_outer=0.15)
 
 
 def _sparse_checks(values, indices, shape, want, tol, what):
